@@ -71,7 +71,7 @@ func H13b_q() {
 		}
 		return false
 	}
-	nameOK, valOK := true, true
+	nameOK, valOK := len(s) > 0, true // field-name = token = 1*tchar: at least one character
 	for i := 0; i < len(s); i++ {
 		if !isTok(s[i]) {
 			nameOK = false
@@ -81,7 +81,7 @@ func H13b_q() {
 			valOK = false
 		}
 	}
-	vAssert(isValidHTTPFieldName(s) == nameOK, "field name is valid iff every byte is an RFC 7230 token character")
+	vAssert(isValidHTTPFieldName(s) == nameOK, "field name is valid iff it is non-empty and every byte is an RFC 7230 token character")
 	vAssert(isValidHTTPFieldValue(s) == valOK, "field value is valid iff every byte is visible, space, tab or obs-text")
 }
 
@@ -310,7 +310,16 @@ func H13f_q() {
 	for i := 0; i < len(msg2); i++ {
 		vAssume(msg2[i] < 0x80)
 	}
-	h := http.Header{"Grpc-Status": []string{strconv.Itoa(code1)}}
+	// grpc-status is 1*DIGIT: a sign makes it malformed even where the number would be in range
+	statusText := strconv.Itoa(code1)
+	sign := vInt("sign", 0, 2)
+	switch sign {
+	case 1:
+		statusText = "+" + statusText
+	case 2:
+		statusText = "-" + statusText
+	}
+	h := http.Header{"Grpc-Status": []string{statusText}}
 	enc := grpcutil.PercentEncodeMessage(msg1)
 	if hasMsg {
 		h["Grpc-Message"] = []string{enc}
@@ -330,6 +339,6 @@ func H13f_q() {
 	}
 	p := &vCountPrinter{}
 	checkGRPCStatus(h, p)
-	bad := code2 != code1 || (code2 == 0 && nd > 0) || (hasMsg && msg2 != msg1) || (hasMsg && code1 == 0 && enc != "")
-	vAssert((p.n == 0) == !bad, "status trailers are accepted exactly when grpc-status, grpc-message and grpc-status-details-bin agree (and an OK status carries neither message nor details)")
+	bad := sign != 0 || code2 != code1 || (code2 == 0 && nd > 0) || (hasMsg && msg2 != msg1) || (hasMsg && code1 == 0 && enc != "")
+	vAssert((p.n == 0) == !bad, "status trailers are accepted exactly when grpc-status is an unsigned number and grpc-status, grpc-message and grpc-status-details-bin agree (and an OK status carries neither message nor details)")
 }
